@@ -4,7 +4,9 @@
 package limiter
 
 import (
+	"reflect"
 	"time"
+	"unsafe"
 
 	"k8s.io/client-go/kubernetes"
 
@@ -32,8 +34,33 @@ func (h *VerifHandle) Sync()                    { h.r.sync() }
 func (h *VerifHandle) CleanupTimeoutClient()    { h.r.cleanupTimeoutClient() }
 func (h *VerifHandle) CleanupUnknownCondition() { h.r.cleanupUnknownCondition() }
 func (h *VerifHandle) LeaderCheck()             { h.r.leaderCheck() }
+
+// SetHeartbeat sets the time of an instance's last heartbeat as the client cache records it. By reflection (the
+// field is found by name; a sync.Map-like value gets Store, a plain map[string]time.Time an assignment), so that a
+// change of the field's type does not break the build of every check that uses the limiter rig; it panics with a
+// clear message when the heartbeat record cannot be found at all.
 func (h *VerifHandle) SetHeartbeat(instance string, t time.Time) {
-	h.r.clientCache.clientHeartbeats.Store(instance, t)
+	cc := reflect.ValueOf(h.r.clientCache)
+	for cc.Kind() == reflect.Ptr || cc.Kind() == reflect.Interface {
+		cc = cc.Elem()
+	}
+	f := cc.FieldByName("clientHeartbeats")
+	if !f.IsValid() || !f.CanAddr() {
+		panic("verif: the limiter's client cache has no addressable field clientHeartbeats any more: the harness cannot make an instance silent")
+	}
+	v := reflect.NewAt(f.Type(), unsafe.Pointer(f.UnsafeAddr()))
+	if m, ok := v.Interface().(interface{ Store(key, value interface{}) }); ok {
+		m.Store(instance, t)
+		return
+	}
+	if m, ok := v.Interface().(*map[string]time.Time); ok {
+		if *m == nil {
+			*m = map[string]time.Time{}
+		}
+		(*m)[instance] = t
+		return
+	}
+	panic("verif: clientHeartbeats is of type " + f.Type().String() + ": the harness does not know how to set a heartbeat time in it")
 }
 func (h *VerifHandle) Store(shard int) _interface.LimitStore { return h.r.getLimitStoreForShard(shard) }
 func (h *VerifHandle) Elector() elector.LeaderElector        { return h.r.leaderElector }
